@@ -343,7 +343,17 @@ def _install_cases(codes):
     return out
 
 
-INSTALL_CASES = _install_cases(REPRESENTATIVE)
+import os as _os
+if _os.environ.get("PYVC_TIER") == "thorough":      # every suite of the table that the oracle knows, every valid version and label
+    try:
+        import ast as _ast
+        _tree = _ast.parse(open(_os.path.join(_os.environ.get("TLEXPORT_REPO", "/repo"), "tlexport", "cipher_suite_parser.py")).read())
+        for _n in _tree.body:
+            if isinstance(_n, _ast.Assign) and getattr(_n.targets[0], "id", None) == "cipher_suites":
+                REPRESENTATIVE = sorted(k.value.hex().upper() for k in _n.value.keys)
+    except Exception:
+        pass
+INSTALL_CASES = _install_cases([c for c in REPRESENTATIVE if c in _oracle()])
 
 
 def expected_schedule(c, prm, version, label, secret, cr, sr, name):
